@@ -127,6 +127,9 @@ func RunWorker(e Engine, a WorkerArgs) int {
 			return 2
 		}
 		evals++
+		if os.Getenv("VERIF_MEMDEBUG") != "" && evals%20 == 0 {
+			memDebug(evals)
+		}
 		total.Merge(res.Stats)
 		if res.NonTrivial {
 			nontriv[res.TraceHash] = true
